@@ -26,7 +26,7 @@ func registry() *kernel.Registry {
 		MinProbes:   map[string][]string{},
 		UnstableSUT: map[string]int{"C14": 8},
 		Weights: map[string]map[string]int{
-			"C14": {"xr": 8, "ethpow": 2}, "C10": {"eth": 5}, "C01": {"xr": 5}, "C02": {"xr": 5}, "C05": {"xr": 5}, "C07": {"tm": 4}, "C13": {"xr": 3}, "C19": {"xr": 2}, "C17": {"ag": 3},
+			"C14": {"xr": 8, "ethpow": 2}, "C10": {"eth": 5}, "C01": {"xr": 5}, "C02": {"xr": 5}, "C05": {"xr": 5}, "C07": {"tm": 4, "xr": 2}, "C13": {"xr": 3}, "C19": {"xr": 2}, "C17": {"ag": 3},
 		},
 	}
 	reg.Components["xr"] = [2][]string{
@@ -43,6 +43,8 @@ func registry() *kernel.Registry {
 	ag.Register(reg)
 	// the staking system contract driven by the call data of a received packet (C17's atomicity clause)
 	reg.Serves["C17"] = append(reg.Serves["C17"], "xr")
+	// the proof-delay clause of C07: Tendermint clients with a confirmation delay inside real relay traffic
+	reg.Serves["C07"] = append(reg.Serves["C07"], "xr")
 	return reg
 }
 
